@@ -65,7 +65,7 @@ pub mod v1 {
     use remoc::rtc::CallError;
 
     #[remoc::rtc::remote(clone)]
-    pub trait Svc {
+    pub trait Svc: Send + Sync {
         async fn get(&self, id: u32) -> Result<i64, CallError>;
         async fn slow_get(&self, id: u32, wait_us: u32) -> Result<i64, CallError>;
         async fn blob(&self, size: u32, id: u32) -> Result<Vec<u8>, CallError>;
@@ -75,6 +75,12 @@ pub mod v1 {
         #[no_cancel]
         async fn long_nc(&mut self, x: i64, id: u32) -> Result<i64, CallError>;
         async fn eat(&mut self, food: Poison, id: u32) -> Result<i64, CallError>;
+        /// Default-bodied method (doubles the counter through the trait's own methods); the served
+        /// object overrides it, as an implementor may. A call must reach the served object as ONE request.
+        async fn double_it(&mut self, id: u32) -> Result<i64, CallError> {
+            let v = self.get(id | (1 << 30)).await?;
+            self.add(v, id | (1 << 31)).await
+        }
     }
 }
 
@@ -84,7 +90,7 @@ pub mod v2 {
     use remoc::rtc::CallError;
 
     #[remoc::rtc::remote(clone)]
-    pub trait Svc {
+    pub trait Svc: Send + Sync {
         async fn get(&self, id: u32) -> Result<i64, CallError>;
         async fn slow_get(&self, id: u32, wait_us: u32) -> Result<i64, CallError>;
         async fn blob(&self, size: u32, id: u32) -> Result<Vec<u8>, CallError>;
@@ -94,6 +100,12 @@ pub mod v2 {
         #[no_cancel]
         async fn long_nc(&mut self, x: i64, id: u32) -> Result<i64, CallError>;
         async fn eat(&mut self, food: Poison, id: u32) -> Result<i64, CallError>;
+        /// Default-bodied method (doubles the counter through the trait's own methods); the served
+        /// object overrides it, as an implementor may. A call must reach the served object as ONE request.
+        async fn double_it(&mut self, id: u32) -> Result<i64, CallError> {
+            let v = self.get(id | (1 << 30)).await?;
+            self.add(v, id | (1 << 31)).await
+        }
         async fn extra(&mut self, x: i64, id: u32) -> Result<i64, CallError>;
         async fn extra_ref(&self, id: u32) -> Result<i64, CallError>;
     }
@@ -321,6 +333,15 @@ impl Obj {
         v
     }
 
+    pub async fn do_double(&mut self, id: u32) -> i64 {
+        let g = self.sh.begin(id, "double_it", 0, true);
+        let v = self.value;
+        self.value = 2 * v;
+        g.applied();
+        g.finish(2 * v);
+        2 * v
+    }
+
     pub async fn do_take(self, id: u32) -> i64 {
         let g = self.sh.begin(id, "take", 0, true);
         let v = self.value;
@@ -351,6 +372,9 @@ impl v1::Svc for Obj {
     }
     async fn long_nc(&mut self, x: i64, id: u32) -> Result<i64, CallError> {
         Ok(self.do_long(x, id, "long_nc").await)
+    }
+    async fn double_it(&mut self, id: u32) -> Result<i64, CallError> {
+        Ok(self.do_double(id).await)
     }
     async fn eat(&mut self, food: Poison, id: u32) -> Result<i64, CallError> {
         Ok(self.do_eat(food, id).await)
@@ -543,6 +567,8 @@ pub enum Op {
     Extra(i64),
     ExtraRef,
     Take,
+    /// Default-bodied trait method overridden by the served object: doubles the counter.
+    Double,
 }
 
 impl Op {
@@ -559,6 +585,7 @@ impl Op {
             Op::Extra(_) => "extra",
             Op::ExtraRef => "extra_ref",
             Op::Take => "take",
+            Op::Double => "double_it",
         }
     }
 
@@ -582,7 +609,7 @@ impl Op {
     }
 
     pub fn is_mutator(&self) -> bool {
-        self.delta() != 0 || matches!(self, Op::Take)
+        self.delta() != 0 || matches!(self, Op::Take | Op::Double)
     }
 }
 
@@ -657,6 +684,7 @@ pub async fn call_v1(c: &mut v1::SvcClient, op: &Op, id: u32) -> Result<i64, Str
         Op::Long(x) => es(c.long(*x, id).await),
         Op::LongNc(x) => es(c.long_nc(*x, id).await),
         Op::Eat { bad, len } => es(c.eat(Poison { bad: *bad, pad: vec![7u8; *len as usize] }, id).await),
+        Op::Double => es(c.double_it(id).await),
         other => Err(format!("harness: operation {other:?} not available on a v1 client")),
     }
 }
@@ -674,6 +702,7 @@ pub async fn call_v2(c: &mut v2::SvcClient, op: &Op, id: u32) -> Result<i64, Str
         Op::Eat { bad, len } => es(c.eat(Poison { bad: *bad, pad: vec![7u8; *len as usize] }, id).await),
         Op::Extra(x) => es(c.extra(*x, id).await),
         Op::ExtraRef => es(c.extra_ref(id).await),
+        Op::Double => es(c.double_it(id).await),
         other => Err(format!("harness: operation {other:?} not available on a v2 client")),
     }
 }
@@ -853,6 +882,7 @@ pub async fn start_svc_server(
                     v1::SvcReq::Long { __reply_tx, x, id } => reply!(__reply_tx, id, obj.do_long(x, id, "long").await),
                     v1::SvcReq::LongNc { __reply_tx, x, id } => reply!(__reply_tx, id, obj.do_long(x, id, "long_nc").await),
                     v1::SvcReq::Eat { __reply_tx, food, id } => reply!(__reply_tx, id, obj.do_eat(food, id).await),
+                    v1::SvcReq::DoubleIt { __reply_tx, id } => reply!(__reply_tx, id, obj.do_double(id).await),
                     _ => (),
                 }
             }
@@ -1145,6 +1175,8 @@ pub enum LinKind {
     Add(i64),
     /// Returns the value; nothing may take effect afterwards.
     Take,
+    /// Doubles the value and returns the new value.
+    Double,
 }
 
 #[derive(Clone, Debug)]
@@ -1195,6 +1227,7 @@ pub fn linearize(ops: &[LinOp], init: i64) -> Option<Vec<u32>> {
                 LinKind::Get => (value, value, false),
                 LinKind::Add(x) => (value + x, value + x, false),
                 LinKind::Take => (value, value, true),
+                LinKind::Double => (2 * value, 2 * value, false),
             };
             if let Some(r) = o.result
                 && r != res
@@ -1223,6 +1256,7 @@ pub fn lin_ops(calls: &[CallRec], log: &[ExecRec]) -> Vec<LinOp> {
         let kind = match &c.op {
             Op::Get | Op::SlowGet(_) => LinKind::Get,
             Op::Take => LinKind::Take,
+            Op::Double => LinKind::Double,
             Op::Blob(_) | Op::Extra(_) | Op::ExtraRef => continue,
             op => LinKind::Add(op.delta()),
         };
